@@ -94,8 +94,13 @@ PER_PROPERTY = {
     },
     'C10': {
         'explanation': "representation invariant volume = sum of per-substance volumes after every container operation; "
-                       "get_volume / get_concentration against the abstraction; cached substance sets not corrupted (syntactic)",
-        'assumptions': [ROUNDING, SIGMA, CONVERT, FINITE, MIX, SOLVE],
+                       "get_volume / get_concentration against the abstraction; plate observers cell by cell; observers with a "
+                       "history (has_liquid, get_substances asked before an operation: every result answers for its own "
+                       "contents); cached substance sets not corrupted (syntactic)",
+        'assumptions': [ROUNDING, SIGMA, CONVERT, FINITE, MIX, SOLVE, PLATE,
+                        "stores into private attributes (`_x`, memo fields) are not counted as changes of observable state; "
+                        "a store into class-level mutable state makes the case UNDECIDED (state carried from call to call is "
+                        "not modelled)"],
     },
     'C11': {
         'explanation': "fill_to: total quantity in the requested unit equals the target, only the solvent grows; dilute: "
@@ -120,7 +125,10 @@ PER_PROPERTY = {
         'assumptions': [BAKE, TRACK, SIGMA, CONVERT, NUMPY],
     },
     'C18': {
-        'assumptions': ["configurations: the obligations are re-proved under each setting of a finite sweep (quick: every SI "
+        'assumptions': ["Config.__init__ (pyplate/__init__.py) is executed by the engine on the yaml data of each setting; the "
+                        "extraction drops its prologue (search for pyplate.yaml along PYPLATE_CONFIG / home / package "
+                        "directory and yaml.safe_load), which is trusted",
+                        "configurations: the obligations are re-proved under each setting of a finite sweep (quick: every SI "
                         "prefix of moles_storage_unit with the shipped volume unit and vice versa; thorough: the full "
                         "prefix x prefix grid), not for an arbitrary unit string", SIGMA, CONVERT, MIX, SOLVE, TRACK],
     },
